@@ -18,8 +18,8 @@ func init() {
 	core.Register(&core.Check{
 		ID: "C41", Level: "other", Title: "VBFT round decisions count distinct participants",
 		Technique: "guard dominance and scan-completion in the de-duplicating insert, one-increment-site-per-pass over counters keyed by participant, threshold operands, value lineage of the decided proposer",
-		Explain: "Decided on the SSA of consensus/vbft. (Insert) addBlockEndorsementLocked: every extension EndorseSigs[endorser] = append(existing, eSig) happens only after the scan 'an existing entry is ForEmpty' ran to its end — and from the hit edge of that scan, which tests ForEmpty alone, no write is reachable (a participant that voted empty is frozen: at most one empty entry) — and, when the new entry is not for empty, after the scan 'an existing entry names the same proposer' ran to its end with no write reachable from its hit edge (at most one entry per proposer); every other write installs a fresh one-element list and happens only for a first entry or a commitment. (Counting) endorseDone, endorseFailed, commitDone iterate the map EndorseSigs keyed by participant; within one pass over a participant's entries each counter has a single increment site — no second site of the same counter is reachable from the first without starting the next participant — so with the insert invariants an entry counts once. (Thresholds) endorseDone answers true only on emptyCount > C or endorseCount[p] > C; commitDone's decided proposer is either getCommitConsensus's non-sentinel answer or an EndorsedProposer assigned under endorseCnt[p] > N-1-C; getCommitConsensus answers a proposer only on len(signers[p])+1 >= N-(N-1)/3 where signers[p] is a set keyed by committer/endorser ids (distinct by construction; formula itself: C42). (Seal) addSignaturesToBlockLocked adds the proposer's signature once, then per participant at most one signature (the append is followed by leaving the inner scan before the next entry), only for entries matching (proposer, forEmpty) and endorser != proposer, key and signature appended pairwise. NOT decided: message-sequence semantics (what a Byzantine schedule can make the pool contain beyond these invariants).",
-		Run: runC41,
+		Explain:   "Decided on the SSA of consensus/vbft. (Insert) addBlockEndorsementLocked: every extension EndorseSigs[endorser] = append(existing, eSig) happens only after the scan 'an existing entry is ForEmpty' ran to its end — and from the hit edge of that scan, which tests ForEmpty alone, no write is reachable (a participant that voted empty is frozen: at most one empty entry) — and, when the new entry is not for empty, after the scan 'an existing entry names the same proposer' ran to its end with no write reachable from its hit edge (at most one entry per proposer); every other write installs a fresh one-element list and happens only for a first entry or a commitment. (Counting) endorseDone, endorseFailed, commitDone iterate the map EndorseSigs keyed by participant; within one pass over a participant's entries each counter has a single increment site — no second site of the same counter is reachable from the first without starting the next participant — so with the insert invariants an entry counts once. (Thresholds) endorseDone answers true only on emptyCount > C or endorseCount[p] > C; commitDone's decided proposer is either getCommitConsensus's non-sentinel answer or an EndorsedProposer assigned under endorseCnt[p] > N-1-C; getCommitConsensus answers a proposer only on len(signers[p])+1 >= N-(N-1)/3 where signers[p] is a set keyed by committer/endorser ids (distinct by construction; formula itself: C42). (Seal) addSignaturesToBlockLocked adds the proposer's signature once, then per participant at most one signature (the append is followed by leaving the inner scan before the next entry), only for entries matching (proposer, forEmpty) and endorser != proposer, key and signature appended pairwise. NOT decided: message-sequence semantics (what a Byzantine schedule can make the pool contain beyond these invariants).",
+		Run:       runC41,
 	})
 }
 
